@@ -1,7 +1,10 @@
 package certs
 
 import (
+	"crypto"
 	"crypto/ecdsa"
+	"crypto/ed25519"
+	"crypto/rsa"
 	"crypto/elliptic"
 	"crypto/rand"
 	"crypto/tls"
@@ -15,8 +18,19 @@ import (
 	"reservoir/utils/syncmap"
 )
 
-func govcTestCA(t *testing.T) *PrivateCA {
-	key, err := ecdsa.GenerateKey(elliptic.P256(), rand.Reader)
+// govcTestCA makes a CA whose signing key is of the given kind: the operator's CA key may be
+// ECDSA, RSA or Ed25519 (loadX509KeyPair accepts all three), the leaf keys are always P-256.
+func govcTestCA(t *testing.T, kind string) *PrivateCA {
+	var key crypto.Signer
+	var err error
+	switch kind {
+	case "rsa":
+		key, err = rsa.GenerateKey(rand.Reader, 2048)
+	case "ed25519":
+		_, key, err = ed25519.GenerateKey(rand.Reader)
+	default:
+		key, err = ecdsa.GenerateKey(elliptic.P256(), rand.Reader)
+	}
 	if err != nil {
 		t.Fatal(err)
 	}
@@ -29,7 +43,7 @@ func govcTestCA(t *testing.T) *PrivateCA {
 		KeyUsage:              x509.KeyUsageCertSign,
 		BasicConstraintsValid: true,
 	}
-	der, err := x509.CreateCertificate(rand.Reader, tmpl, tmpl, &key.PublicKey, key)
+	der, err := x509.CreateCertificate(rand.Reader, tmpl, tmpl, key.Public(), key)
 	if err != nil {
 		t.Fatal(err)
 	}
@@ -44,9 +58,16 @@ func govcTestCA(t *testing.T) *PrivateCA {
 // signing are outside the verifier's reach): for each CONNECT target form the leaf
 // certificate names exactly that host, is inside its validity period, chains to the CA,
 // matches its private key; it is reused while valid and replaced once expired.
-// Bound: the host forms listed below (DNS names, IPv4, IPv6 literals, several ports).
+// Bound: the host forms listed below (DNS names, IPv4, IPv6 literals, several ports), for a CA
+// signing key of each kind the loader accepts (ECDSA P-256, RSA 2048, Ed25519).
 func TestGovcBoundedLeafCertificates(t *testing.T) {
-	ca := govcTestCA(t)
+	for _, kind := range []string{"ecdsa", "rsa", "ed25519"} {
+		t.Run("ca-key-"+kind, func(t *testing.T) { govcBoundedLeafCertificates(t, kind) })
+	}
+}
+
+func govcBoundedLeafCertificates(t *testing.T, kind string) {
+	ca := govcTestCA(t, kind)
 	pool := x509.NewCertPool()
 	pool.AddCert(ca.cert)
 	targets := []string{"example.com:443", "a-b.c.example:8443", "xn--bcher-kva.example:443", "127.0.0.1:443", "10.1.2.3:1", "[::1]:443", "[2001:db8::1]:8443", "localhost:65535"}
